@@ -762,6 +762,20 @@ func c20GcsCatalogue() []c20GcsCase {
 			out = append(out, c20GcsCase{Batch: []gcs.HTTPReq{menu[i], menu[j]}, Label: fmt.Sprintf("batch:%d,%d", i, j)})
 		}
 	}
+	// sub-requests whose bodies cross the sizes of the buffers a parser may sit on (4 KiB bufio, 32 KiB copy buffer,
+	// 64 KiB), alone, before and after a small part, and a batch of many parts
+	for _, n := range []int{3000, 4090, 5000, 33000, 70000} {
+		big := gcs.ReqPatch("b", "x", []byte(`{"metadata":{"big":"`+strings.Repeat("v", n)+`"}}`), nil)
+		out = append(out, c20GcsCase{Batch: []gcs.HTTPReq{big}, Label: fmt.Sprintf("batch:big%d", n)},
+			c20GcsCase{Batch: []gcs.HTTPReq{menu[0], big}, Label: fmt.Sprintf("batch:0,big%d", n)},
+			c20GcsCase{Batch: []gcs.HTTPReq{big, menu[0]}, Label: fmt.Sprintf("batch:big%d,0", n)},
+			c20GcsCase{Batch: []gcs.HTTPReq{big, big}, Label: fmt.Sprintf("batch:big%d,big%d", n, n)})
+	}
+	var many []gcs.HTTPReq
+	for i := 0; i < 60; i++ {
+		many = append(many, menu[0], gcs.ReqPatch("b", "x", []byte(fmt.Sprintf(`{"metadata":{"n":"%d"}}`, i)), nil))
+	}
+	out = append(out, c20GcsCase{Batch: many, Label: "batch:120-parts"})
 	full := c20Batch([]gcs.HTTPReq{menu[0], menu[3]})
 	for k := 0; k < len(full.Body); k += 1 {
 		r := full
